@@ -35,7 +35,7 @@ static char PAY[MAXMSG];                  /* plain payload cells (identity) */
 
 /* pending deliveries of a module (mailbox + accumulated batch), in send order */
 #define MAXMB 24
-typedef struct { int msg; int optional; unsigned pats; int kind; int key; int prio; } pend_t;   /* prio: priority of the matching subscription when sent (-1: several candidates) */   /* kind: 0 ps message, 1 fd readiness, 2 timer expiry */
+typedef struct { int msg; int optional; unsigned pats; int kind; int key; int prio; int after_pill; } pend_t;   /* prio: priority of the matching subscription when sent (-1: several candidates) */   /* kind: 0 ps message, 1 fd readiness, 2 timer expiry */
 
 /* user-held / stashed event records */
 typedef struct { const m_evt_t *p; int kind, msg, key; const void *ud; int refs; int prio; } evrec_t;
@@ -69,6 +69,7 @@ typedef struct {
     int hs[8]; int nhs;                     /* handler stack (ids 1..3) */
     srcrec_t src[MAXSRC];
     int tb_rate, tb_burst;
+    unsigned life;                          /* sticky per-registration history flags (features ever used): keeps histories that went through a reset (stop) apart in the dedup key, since a reset may leave hidden residue */
     int elig_dirty;                         /* eligibility changed inside the current outermost API call (grace) */
     int reg_gen;
 } mod_t;
@@ -131,7 +132,10 @@ static void mb_append(int s, int msg, int optional, unsigned pats) {
     if (m->nmb >= MAXMB) vfail("INTERNAL", "INTERNAL", "monitor mailbox overflow");
     int prio = PR_NORM, np = 0;
     for (int q = 0; q < NPAT; q++) if (pats & (1u << q)) { prio = m->sub[q].prio; np++; }
-    m->mb[m->nmb++] = (pend_t){ msg, optional, pats, 0, 0, np > 1 ? -1 : prio };
+    int after_pill = 0;      /* sent behind a pending poison pill: it will be discarded when the pill takes effect, and must never be delivered */
+    for (int i = 0; i < m->nmb; i++) if (m->mb[i].kind == 0 && !m->mb[i].optional && MSG[m->mb[i].msg].topic == T_PILL) after_pill = 1;
+    if (after_pill) optional = 1;
+    m->mb[m->nmb++] = (pend_t){ msg, optional, pats, 0, 0, np > 1 ? -1 : prio, after_pill };
     if (!optional) MSG[msg].owed++;
 }
 static void mb_remove(int s, int idx) {
